@@ -31,6 +31,19 @@ def tree_task(d, tag, nest):
     """runs in a worker: starts a grandchild subprocess, optionally a nested executor whose worker does the same, then never returns"""
     g = subprocess.Popen([sys.executable, "-c", "import time; time.sleep(600)"])
     pids = {"worker": os.getpid(), "grandchild": g.pid}
+    # a second grandchild, started by a helper thread of the worker that stays alive: the kernel lists children per thread
+    # (/proc/<pid>/task/<tid>/children), the parent pid of the child is the same
+    import threading
+    box = {}
+    def helper():
+        box["p"] = subprocess.Popen([sys.executable, "-c", "import time; time.sleep(600)"])
+        time.sleep(600)
+    threading.Thread(target=helper, daemon=True).start()
+    t0 = time.time()
+    while "p" not in box and time.time() - t0 < 10:
+        time.sleep(0.01)
+    if "p" in box:
+        pids["grandchild_of_a_helper_thread"] = box["p"].pid
     if nest:
         from loky import ProcessPoolExecutor
         e = ProcessPoolExecutor(1)
